@@ -8,8 +8,10 @@ require (
 )
 
 require (
+	golang.org/x/crypto v0.31.0 // indirect
 	golang.org/x/net v0.33.0 // indirect
 	mellium.im/reader v0.1.0 // indirect
+	mellium.im/sasl v0.3.2 // indirect
 	mellium.im/xmlstream v0.15.4 // indirect
 )
 
